@@ -443,7 +443,7 @@ Definition sstep (s : store) (x : sctx) (o : sop) : sres :=
           | [] => mkSres s (RErr EMissing) [] []
           | v :: _ =>
               let v' := if vp_stale p then v else update_view s v in
-              let vs := map (fun w => if is_view cid ddoc name w then v' else w) (s_views s) in
+              let vs := map (fun w => if is_view cid ddoc name w then (if vp_stale p then w else update_view s w) else w) (s_views s) in
               mkSres (with_views s vs) (RRows (map render_vrow (select_rows p (vd_rows v')))) [] []
           end
       end
